@@ -322,7 +322,11 @@ class Interp:
                 tgt, nm = m.imports[name]
                 return self.resolve_import(tgt, nm)
             if name in m.consts:
-                return self.ev(m.consts[name], Frame(module))
+                # module-level objects are created once per process: keep their identity (module-level mutable state is observable)
+                cache = self.__dict__.setdefault('_globals', {})
+                if (module, name) not in cache:
+                    cache[(module, name)] = self.ev(m.consts[name], Frame(module))
+                return cache[(module, name)]
         if name in ('True', 'False', 'None'):
             return K({'True': True, 'False': False, 'None': None}[name])
         return Builtin(name)
@@ -345,7 +349,10 @@ class Interp:
         if nm in m.funcs:
             return m.funcs[nm]
         if nm in m.consts:
-            return self.ev(m.consts[nm], Frame(tgt))
+            cache = self.__dict__.setdefault('_globals', {})
+            if (tgt, nm) not in cache:
+                cache[(tgt, nm)] = self.ev(m.consts[nm], Frame(tgt))
+            return cache[(tgt, nm)]
         if nm in m.imports and (tgt, nm) not in seen:
             t2, n2 = m.imports[nm]
             return self.resolve_import(t2, n2, seen + ((tgt, nm),))
@@ -411,6 +418,9 @@ class Interp:
                 return v.v
             except TypeError:
                 return ('unhashable', id(v))
+        if isinstance(v, ListV) and v.tup:
+            # tuples are keyed by their contents
+            return ('tuple',) + tuple(repr(self.dkey(x)) for x in v.items)
         return self.vkey(v)
 
     def ev_Dict(self, n, fr):
